@@ -195,6 +195,29 @@ def run(rep):
                         "signature-proof completeness assumes the signature randomiser is non-zero (probability 1 - 1/q)"]
 
 
+def range_decomposition_identity(prog):
+    """Honest range constraint for a symbolic value, verified against c*enc(value) + commitment scalar: returns
+    (normalised acceptance node, session, lemmas used).  Acceptance == TRUE (up to randomiser side conditions) with a
+    digit-decomposition lemma used means  sum_j U^j enc(d_j) == enc(value)  for the digits the prover committed to."""
+    rcpn, gcc, gcr, vrc = method(prog, RCP, "new"), method(prog, RCB, "generate_constraint_commitments"), method(prog, RCB, "generate_constraint_response"), method(prog, RC, "verify_range_constraint")
+    csm = method(prog, RCB, "commitment_scalar")
+    if any(x is None for x in (rcpn, gcc, gcr, vrc, csm)):
+        return None, None, []
+    c = ("chal",)
+    chal_s = ("struct", CHAL, 0, (c,))
+    S4 = Session(prog)
+    params = S4.eval(rcpn)
+    rng = ("refv", ("rng",))
+    bres = S4.call(gcc, [("value",), params, rng])
+    okb = S4.eng.proj_field(("down", bres, 0), 0)
+    proof = S4.call(gcr, [okb, chal_s])
+    cs4 = S4.call(csm, [okb])
+    exp = ("add", ("mul", c, ("from_int", ("icast", ("value",), "i64", "u64"))), cs4)
+    r = S4.call(vrc, [proof, params, chal_s, exp])
+    node = under_assumptions(S4, S4.alg.nb(S4.eng.tobdd(r))) if r is not None else 0
+    return node, S4, sorted(set(getattr(S4.alg, "lemmas_used", [])))
+
+
 def verdict(rep, S, name, node, body, side=0):
     b = S.alg.bdd
     if node == 1:
